@@ -1,4 +1,5 @@
 import BoxoModel.C39.RoundTrip
+import BoxoModel.C39.MimeLemmas
 /-!
 # C39 — Multipart file serialization round-trips
 
@@ -66,6 +67,17 @@ theorem c39_nsecs_value :
     parseDecVal "-9223372036854775809".toList = -9223372036854775808 ∧
     parseDecVal "abc".toList = 0 :=
   ⟨fun _ _ h => parseDecVal_of_parse h, by decide, by decide, by decide⟩
+
+/-- **The textual header layer.** The `Content-Disposition` value the writer prints for a part
+(`form-data; name="file[?…]"; filename="<escaped name>"`, or `attachment; filename="…"` in mixed mode) is read
+back by the modelled fragment of `mime.ParseMediaType` as exactly the disposition kind, form name and escaped
+file name the `Part` abstraction carries — for every stack, entry name, mode and time. -/
+theorem c39_header_roundtrip (form : Bool) (stack : List Str) (name : Str) (mode : Nat) (mt : Option (Int × Nat))
+    (ct : CType) (body abspath : Str) :
+    let p := mkPart form stack name mode mt ct body abspath
+    partFieldsOf (dispositionHeader form mode mt p.filename) = some (p.form, p.formName, p.filename) := by
+  simp only [mkPart]
+  exact partFieldsOf_written form mode mt _ (qsafe_formNameOf mode mt) (qsafe_escape _)
 
 /-- The reader before the `fix:` commit: a file with a mode and no modification time comes back with
 the Unix epoch as its time, and so does every symbolic link without a time. -/
